@@ -200,7 +200,7 @@ func c05Run(c *Ctx) {
 	}
 	// 5. random larger programs
 	r := c.Rand("random")
-	n := c.N(10000, 200000)
+	n := c.N(10000, 600000)
 	for k := 0; k < n; k++ {
 		g := NewPG(r, 10+r.Intn(40))
 		src := g.Program(4)
